@@ -262,6 +262,7 @@ INJECTIONS = ["unknown-field", "leaf-with-selection", "composite-without-selecti
               "cross-fragment-conflict-11", "cross-fragment-conflict-12", "cross-fragment-conflict-21", "cross-fragment-conflict-22", "cross-fragment-compatible",
               "two-operations-shared-fragment-variable-types",
               "abstract-no-overlap", "abstract-partial-overlap", "abstract-in-abstract-no-overlap",
+              "type-definition-in-document", "type-extension-in-document",
               "skipped-spread-then-spread", "skipped-variable-spread-then-spread", "cyclic-subscription-fragments", "self-spreading-subscription-fragment"]
 
 
@@ -518,6 +519,8 @@ def _inject(doc, label, rng):
         doc["defs"].append({"k": "op", "name": "SubCyc", "op": "subscription", "vars": [], "on": "", "sel": [inline("Subscription", [spread("ScA")])]})
         if not op["name"]:
             op["name"] = "Main"
+    elif label in ("type-definition-in-document", "type-extension-in-document"):
+        doc["defs"].append({"k": "typedef", "name": "Extra", "op": "", "vars": [], "on": "", "sel": [], "text": "type Extra { a: Int }" if label.startswith("type-def") else "extend type Obj { extra: Int }"})
     elif label == "repeated-inline-unknown-field":
         op["sel"].append(field("o", "riu", [], [inline("Obj", [field("a")]), inline("Obj", [field("nope")])]))
     elif label == "bad-variable-default":
@@ -656,7 +659,9 @@ def rsel(sel):
 def render(doc):
     parts = []
     for d in doc["defs"]:
-        if d["k"] == "op":
+        if d["k"] == "typedef":
+            parts.append(d["text"])
+        elif d["k"] == "op":
             vs = ("(%s)" % ", ".join("$%s: %s%s" % (v["name"], tsdl(v["type"]), "" if v["def"]["k"] == "none" else " = " + rval(v["def"])) for v in d["vars"])) if d["vars"] else ""
             head = ("%s %s%s " % (d["op"], d["name"], vs)) if (d["name"] or vs or d["op"] != "query") else ""
             parts.append("%s{ %s }" % (head, rsel(d["sel"])))
